@@ -16,7 +16,7 @@ ASSUMPTIONS = []
 
 def cases(rng, tier):
     n = 400 if tier == "quick" else 6000
-    return family_cases(rng, [("emacros", G.gen_emacros)], n, faults=0.25)
+    return family_cases(rng, [("emacros", G.gen_emacros), ("forwarding", G.gen_forwarding)], n, faults=0.25)
 
 
 def nontrivial(case, reply):
